@@ -461,13 +461,44 @@ def check_law_output(lines, c, d, a, b, ans):
 
 # ----------------------------------------------------------------------------- C04
 
+def flow_vocabulary(base):
+    """one statement of every control-flow shape; `base` makes the markers of this position unique"""
+    CA, CB, T = sv('ca'), sv('cb'), progs.Flow.TICK
+    m = lambda i: say(num(base + i))
+    one = ('bin', 'eq', v(CA), [num(1)], 'is')
+    tick = lambda e: ('call', T, [e])
+    inner = lambda body: [put(num(0), CB), ('while', ('bin', 'less', v(CB), [num(2)], 'is'), [('inc', CB, 1)] + body)]
+    V = [[m(1)], [('break', False)], [('continue', False)], [('break', True)], [('continue', True)],
+         [('if', TRUE, [('break', False)], None)], [('if', FALSE, [('break', False)], None)], [('if', one, [('break', False)], None)],
+         [('if', one, [('continue', False)], None)], [('if', TRUE, [], None)], [('if', tick(FALSE), [], None)],
+         [('if', tick(TRUE), [m(2)], [m(3)])], [('if', one, [m(2)], [('break', False)])], [('if', one, [('continue', False)], [m(3)])],
+         [('if', FALSE, [], [('continue', False)])], [('if', TRUE, [('if', one, [('break', False)], None), m(4)], None)],
+         inner([('break', False)]), inner([('continue', False), m(5)]), inner([m(6)]),
+         inner([('if', ('bin', 'eq', v(CB), [num(1)], 'is'), [('break', False)], None), m(7)]),
+         [('until', tick(TRUE), [m(8)])], [('while', tick(FALSE), [m(8)])]]
+    return V
+
+
+def flow_skeleton(loop, picks):
+    CA = sv('ca')
+    body = [('inc', CA, 1)]
+    for pos, i in enumerate(picks):
+        body += flow_vocabulary(100 * (pos + 1))[i]
+    cond = ('bin', 'less', v(CA), [num(3)], 'is') if loop == 'while' else ('bin', 'greatereq', v(CA), [num(3)], 'is')
+    prog = [[('func', progs.Flow.TICK, [sv('pp')], [say(num(99)), ('return', v(sv('pp')), False, False)]),
+             put(num(0), CA), say(num(1)), (loop, cond, body), say(num(2))]]
+    import random as _r
+    return prog, progs.render(_r.Random(0), prog, plain=True)
+
+
 def c04(run):
     rng = run.rng
     n = run.n(1200, 50000)
     run.rule = ('terminating programs of nested if/else/while/until to depth 4 with bounded loop counters, say-markers before '
                 'and after every statement, break/continue (both spellings) at every depth incl. last statement, empty branches, '
                 'conditions of every value kind (literals, flags, not/and/or/nor); oracle: an independent signal-passing reference '
-                'interpreter in the check; non-trivial = at least one loop and one break/continue, or an if inside a loop; distinct by program text')
+                'interpreter in the check; EVERY loop body of up to 2 (quick) / 3 (thorough) statements over a 22-shape vocabulary under '
+                'while and until; non-trivial = at least one loop and one break/continue, or an if inside a loop; distinct by program text')
     cases = []
     for i in range(n):
         fl = progs.Flow(rng)
@@ -491,6 +522,30 @@ def c04(run):
             run.fail({'program': src, 'answer': r[:200]}, 'a well-formed control-flow program does not run to completion: %s %s' % (c, det))
         elif out.decode() != want:
             run.fail({'program': src, 'printed': out.decode(), 'expected': want}, 'statements did not run in the order the program text prescribes')
+    # bounded-exhaustive: EVERY loop body of up to 2 (quick) / 3 (thorough) statements from a vocabulary with each control-flow
+    # shape once (markers, break/continue bare and guarded, empty ifs, if/else with signals, an inner loop with each signal,
+    # conditions with an effect), under `while` and under `until`, checked against the reference interpreter and the model
+    import itertools
+    L = 2 if run.tier == 'quick' else 3
+    bcases = []
+    for loop in ('while', 'until'):
+        for k in range(1, L + 1):
+            for picks in itertools.product(range(len(flow_vocabulary(0))), repeat=k):
+                bcases.append(flow_skeleton(loop, picks))
+    breqs = [run_req(src) for _, src in bcases]
+    bm, bim = run.tie(breqs, proj=proj_run, functional=True, desc=lambda i: {'program': bcases[i][1], 'section': 'bounded-exhaustive'})
+    for (prog, src), r in zip(bcases, bim):
+        if r is None:
+            continue
+        c, det, out, _ = run_parts(r)
+        run.case(('bx', src), True, kind='bounded-exhaustive', outcome=c)
+        want = '\n'.join(str(x) for x in progs.ref_flow(prog))
+        want = (want + '\n') if want else ''
+        if c != 'ok':
+            run.fail({'program': src, 'answer': r[:200]}, 'a well-formed control-flow program does not run to completion: %s %s' % (c, det))
+        elif out.decode() != want:
+            run.fail({'program': src, 'printed': out.decode(), 'expected': want}, 'statements did not run in the order the program text prescribes')
+    run.extra['small_scope'] = {'body_statements': len(flow_vocabulary(0)), 'exhaustive_up_to_length': L, 'programs': len(bcases)}
     # an error stops execution at that statement, with everything printed before it preserved
     cases2 = []
     for i in range(run.n(200, 5000)):
